@@ -193,7 +193,9 @@ impl CertificateRevocationListParams {
 		issuer: &Certificate,
 		issuer_key: &KeyPair,
 	) -> Result<CertificateRevocationList, Error> {
-		if self.next_update.le(&self.this_update) {
+		// Both fields are encoded with a resolution of one second: compare what will be
+		// encoded, so that a CRL whose nextUpdate equals its thisUpdate is never produced.
+		if self.next_update.unix_timestamp() <= self.this_update.unix_timestamp() {
 			return Err(Error::InvalidCrlNextUpdate);
 		}
 
